@@ -79,8 +79,8 @@ func (c *compiler) expandExpression(expr []token, line int) ([]token, error) {
 	input := expr
 	var output []token
 
-	for !exprEqual(input, output) {
-		if len(output) > 0 {
+	for first := true; first || !exprEqual(input, output); first = false {
+		if !first {
 			input = output
 		}
 
